@@ -203,6 +203,7 @@ type FuncSpec struct {
 	NoBody    bool // extern / interface
 	Inline    bool // callers inline the body instead of using a contract
 	Witnesses []string
+	Deterministic bool // govc proves that the postconditions admit at most one result per input
 	Uses      []string // lemmas whose (universally quantified) statements are assumed in this function's proofs
 }
 
